@@ -127,7 +127,7 @@ def has_symmetric_extension(
     if level == 2 and not ppt and dim_x == 2 and dim_y == 2:
         return np.trace(np.linalg.matrix_power(partial_trace(rho, [0]), 2)) >= np.trace(
             np.linalg.matrix_power(rho, 2)
-        ) - 4 * np.sqrt(max(np.real(np.linalg.det(rho)), 0.0))
+        ) - 4 * np.sqrt(max(np.real(np.linalg.det(rho)), 0.0)) - tol
 
     # Otherwise, use semidefinite programming to find a symmetric extension.
     # If the optimal value of the symmetric extension hierarchy is equal to 1,
